@@ -523,6 +523,152 @@ Section AddChildObject.
         apply (inv_I5c s HI); assumption.
     Qed.
   End Dup.
+
+  (* ---------------- _handleDuplicateModule, "the last wins", inside a package: the registered module `first` of
+     that name is removed with its subtree (self._remove(first)) and the new module is added *)
+  Section Replace.
+    Variables (first : id) (T : list id) (m1 : registry) (u : list id).
+    Hypothesis Hfirst : rget fn (allobj s) = Some first.
+    Hypothesis Hcov : covered s first.
+    Hypothesis HT : subtree s first = Some T.
+    Hypothesis Hm1 : del_walk s T (allobj s) = Some m1.
+    Let s' := mkState st1 (next s) (m1 ++ [(fn, ob)]) (roots s) (depthb s) u.
+
+    Lemma rm_first_reg : reg s first.
+    Proof. exists fn. exact Hfirst. Qed.
+    Lemma rm_first_path : fullpath s first = Some fn.
+    Proof. apply (inv_I1 s HI). exact Hfirst. Qed.
+    Lemma rm_first_parent : oparent (st first) = Some q /\ oname (st first) = n.
+    Proof.
+      assert (Hp := rm_first_path). destruct (oparent (st first)) as [q'|] eqn:E.
+      - assert (Hq' : reg s q') by (eapply (inv_par s HI); [apply rm_first_reg | exact E]).
+        destruct (reg_self s HI q' Hq') as [pq' [Hpq' _]].
+        rewrite (reg_child_path s HI first q' pq' rm_first_reg E Hpq') in Hp. inversion Hp as [Heq].
+        apply app_inj_tail in Heq. destruct Heq as [Heq Hn]. split; [|exact Hn].
+        f_equal. apply (path_inj s HI q' q pq' Hq' Hq Hpq'). rewrite Heq. exact Hqpath.
+      - apply (fullpath_f_root _ _ _ _ E) in Hp. exfalso. unfold fn in Hp.
+        apply (f_equal (@length name)) in Hp. rewrite app_length in Hp. cbn in Hp.
+        assert (Hne : pq <> []) by (eapply fullpath_f_nonempty; exact Hqpath).
+        destruct pq; [apply Hne; reflexivity | cbn in Hp; lia].
+    Qed.
+    Lemma rm_not_anc_q : ~ anc st first q.
+    Proof. eapply anc_parent_absurd; [apply rm_first_parent | apply rm_first_path]. Qed.
+    Lemma rm_T_in : forall x, In x T -> reg s x /\ anc st first x.
+    Proof. intros x Hx. apply (desc_reg_anc s HI first x rm_first_reg). eapply subtree_f_desc; [exact HT | exact Hx]. Qed.
+    Lemma rm_T_cov : forall x, reg s x -> anc st first x -> In x T.
+    Proof. intros x Hx Ha. eapply subtree_f_complete; [exact HT | apply Hcov; assumption]. Qed.
+
+    Lemma rm_m1 : forall k x, rget k m1 = Some x <-> (rget k (allobj s) = Some x /\ ~ anc st first x).
+    Proof.
+      intros k x. rewrite (del_walk_spec _ _ _ _ Hm1 k x). split; intros [H1 H2]; split; try exact H1.
+      - intros Ha. apply (H2 x (rm_T_cov x (ex_intro _ k H1) Ha)). apply (inv_I1 s HI). exact H1.
+      - intros y Hy Hpy. destruct (rm_T_in y Hy) as [Hry Hay]. apply H2.
+        assert (E : y = x) by (eapply (path_inj s HI); [exact Hry | exists k; exact H1 | exact Hpy | apply (inv_I1 s HI); exact H1]).
+        rewrite <- E. exact Hay.
+    Qed.
+    Lemma rm_fn_free : rget fn m1 = None.
+    Proof.
+      destruct (rget fn m1) as [x|] eqn:E; [|reflexivity]. exfalso. apply rm_m1 in E. destruct E as [E1 E2].
+      rewrite Hfirst in E1. inversion E1 as [E3]. apply E2. rewrite <- E3. apply anc_refl.
+    Qed.
+    Lemma rm_rget : forall k, rget k (allobj s') = if path_eqb fn k then Some ob else rget k m1.
+    Proof. intros k. unfold s'. cbn. apply (aget_app_new path_eqb path_eqb_eq). exact rm_fn_free. Qed.
+    Lemma rm_reg : forall x, reg s' x <-> x = ob \/ (reg s x /\ ~ anc st first x).
+    Proof.
+      intros x. unfold reg. split.
+      - intros [k Hk]. rewrite rm_rget in Hk. destruct (path_eqb fn k); [inversion Hk; auto|].
+        apply rm_m1 in Hk. destruct Hk as [H1 H2]. right. split; [exists k; exact H1 | exact H2].
+      - intros [E|[[k Hk] Hna]].
+        + exists fn. rewrite rm_rget, path_eqb_refl. rewrite E. reflexivity.
+        + exists k. rewrite rm_rget. destruct (path_eqb fn k) eqn:E.
+          * apply path_eqb_eq in E. exfalso. rewrite <- E in Hk. rewrite Hfirst in Hk. inversion Hk as [E2].
+            apply Hna. rewrite <- E2. apply anc_refl.
+          * apply rm_m1. auto.
+    Qed.
+    Lemma rm_fullpath : forall x, fullpath s' x = fullpath s x.
+    Proof. intros x. unfold fullpath, s'. cbn. apply st1_fullpath. Qed.
+    (* the survivors are closed under parent; no survivor is a child of q named n *)
+    Lemma rm_not_anc_parent : forall o p, ~ anc st first o -> oparent (st o) = Some p -> ~ anc st first p.
+    Proof. intros o p Hn Hp Ha. apply Hn. eapply anc_step; eauto. Qed.
+    Lemma rm_child_n : forall o, reg s o -> ~ anc st first o -> oparent (st o) = Some q -> oname (st o) <> n.
+    Proof.
+      intros o Ho Hna Hp Hn. assert (E := child_named_n o Ho Hp Hn). rewrite Hfirst in E. inversion E as [E2].
+      apply Hna. rewrite <- E2. apply anc_refl.
+    Qed.
+
+    Lemma add_replace_inv : Inv s'.
+    Proof.
+      assert (Hst : store s' = st1) by reflexivity.
+      destruct rm_first_parent as [Hfp Hfn].
+      constructor.
+      - unfold s'. cbn. apply (nodup_app_new path_eqb path_eqb_eq); [|exact rm_fn_free].
+        apply (del_walk_nodup _ _ _ _ Hm1). apply (inv_keys s HI).
+      - intros o Ho. rewrite Hst. apply rm_reg in Ho. destruct (N.eq_dec o q) as [->|Hoq].
+        + rewrite st1_cont_q. apply (nodup_aset name_eqb name_eqb_eq). apply (inv_ckeys s HI). exact Hq.
+        + rewrite st1_cont_other by exact Hoq. destruct Ho as [->|[Ho _]]; [unfold st; rewrite Hocont; constructor|].
+          apply (inv_ckeys s HI). exact Ho.
+      - intros p o Hp. assert (Ho : reg s' o) by (exists p; exact Hp). apply rm_reg in Ho. unfold s'. cbn.
+        destruct Ho as [->|[Ho _]]; [exact Hlt | apply (reg_lt s HI); exact Ho].
+      - intros p o Hp. rewrite rm_fullpath. rewrite rm_rget in Hp. destruct (path_eqb fn p) eqn:E.
+        + inversion Hp as [E2]. apply path_eqb_eq in E. rewrite <- E, <- E2. exact Hobpath.
+        + apply rm_m1 in Hp. apply (inv_I1 s HI). apply Hp.
+      - intros o p Ho Hp. rewrite Hst in Hp. destruct (st1_core o) as [_ [H2 _]]. rewrite H2 in Hp.
+        apply rm_reg. right. apply rm_reg in Ho. destruct Ho as [->|[Ho Hna]].
+        + unfold st in Hp. rewrite Hopar in Hp. inversion Hp as [E]. rewrite <- E. split; [exact Hq | exact rm_not_anc_q].
+        + split; [eapply (inv_par s HI); eauto | eapply rm_not_anc_parent; eauto].
+      - intros o n' c Ho Hin. rewrite Hst in *. apply rm_reg in Ho.
+        destruct (st1_core c) as [C1 [C2 _]]. rewrite C1, C2.
+        assert (Hold : forall o0, reg s o0 -> ~ anc st first o0 -> In (n', c) (ocont (st o0)) -> (o0 = q -> n' <> n) ->
+                                  reg s' c /\ oparent (st c) = Some o0 /\ oname (st c) = n').
+        { intros o0 Ho0 Hna0 Hin0 Hqn. destruct (inv_cont s HI o0 n' c Ho0 Hin0) as [G1 [G2 G3]].
+          split; [|split; [exact G2 | exact G3]]. apply rm_reg. right. split; [exact G1|].
+          intros Ha. destruct (anc_inv _ _ _ Ha) as [E|[p [Hp Hap]]].
+          - (* c = first: then o0 = q and n' = n *)
+            rewrite <- E in G2, G3. fold st in G2, G3. rewrite Hfp in G2. inversion G2 as [E2].
+            apply (Hqn (eq_sym E2)). rewrite <- G3. exact Hfn.
+          - fold st in G2. rewrite G2 in Hp. inversion Hp as [E2]. rewrite <- E2 in Hap. exact (Hna0 Hap). }
+        destruct (N.eq_dec o q) as [->|Hoq].
+        + rewrite st1_cont_q in Hin.
+          apply (in_aset_inv name_eqb name_eqb_eq) in Hin; [|apply (inv_ckeys s HI); exact Hq].
+          destruct Hin as [[-> ->]|[Hne Hin]].
+          * split; [apply rm_reg; left; reflexivity | split; [exact Hopar | exact Honame]].
+          * apply (Hold q Hq rm_not_anc_q Hin). intros _. exact Hne.
+        + rewrite st1_cont_other in Hin by exact Hoq.
+          destruct Ho as [->|[Ho Hna]]; [unfold st in Hin; rewrite Hocont in Hin; destruct Hin|].
+          apply (Hold o Ho Hna Hin). intros E. contradiction.
+      - intros r Hr. unfold s' in Hr. cbn in Hr. destruct (inv_roots s HI r Hr) as [G1 G2].
+        split.
+        + apply rm_reg. right. split; [exact G1|]. intros Ha. destruct (anc_inv _ _ _ Ha) as [E|[p [Hp _]]].
+          * rewrite <- E in G2. fold st in G2. rewrite Hfp in G2. discriminate.
+          * fold st in G2. rewrite G2 in Hp. discriminate.
+        + rewrite Hst. destruct (st1_core r) as [_ [H2 _]]. rewrite H2. exact G2.
+      - intros o p Ho Hp. rewrite Hst in *. destruct (st1_core o) as [O1 [O2 [_ [_ O5]]]]. rewrite O1, O5. rewrite O2 in Hp.
+        apply rm_reg in Ho. destruct Ho as [->|[Ho Hna]].
+        + unfold st in Hp. rewrite Hopar in Hp. inversion Hp as [E]. left. rewrite <- E. rewrite st1_cont_q. unfold st.
+          rewrite Honame. apply cget_cset_eq.
+        + destruct (N.eq_dec p q) as [->|Hpq].
+          * rewrite st1_cont_q. unfold cget, cset. rewrite cget_cset_ne.
+            -- apply (inv_I3 s HI); assumption.
+            -- intros E. apply (rm_child_n o Ho Hna Hp). auto.
+          * rewrite st1_cont_other by exact Hpq. apply (inv_I3 s HI); assumption.
+      - intros o Ho Hp. rewrite Hst in Hp. destruct (st1_core o) as [_ [O2 _]]. rewrite O2 in Hp. apply rm_reg in Ho.
+        unfold s'. cbn. destruct Ho as [->|[Ho _]]; [unfold st in Hp; congruence | apply (inv_top s HI); assumption].
+      - intros o p Ho Hp H1 H2. rewrite Hst in *. destruct (st1_core o) as [_ [O2 [O3 [O4 _]]]].
+        destruct (st1_core p) as [_ [_ [P3 _]]]. rewrite O2 in Hp. rewrite O3 in H1. rewrite P3 in H2. rewrite O4.
+        apply rm_reg in Ho. destruct Ho as [->|[Ho _]].
+        + unfold st in Hp. rewrite Hopar in Hp. inversion Hp as [E]. rewrite <- E in H2. apply Hkind; assumption.
+        + apply (inv_I5a s HI o p); assumption.
+      - intros o p Ho Hp H1. rewrite Hst in *. destruct (st1_core o) as [_ [O2 [O3 _]]].
+        destruct (st1_core p) as [_ [_ [P3 _]]]. rewrite O2 in Hp. rewrite O3 in H1. rewrite P3.
+        apply rm_reg in Ho. destruct Ho as [->|[Ho _]].
+        + unfold st in Hp. rewrite Hopar in Hp. inversion Hp as [E]. rewrite <- E. apply Hmod; assumption.
+        + apply (inv_I5b s HI o p); assumption.
+      - intros o Ho H1. rewrite Hst in *. destruct (st1_core o) as [_ [_ [O3 _]]]. rewrite O3 in H1.
+        destruct (N.eq_dec o q) as [->|Hoq]; [unfold st in H1; congruence|].
+        rewrite st1_cont_other by exact Hoq. apply rm_reg in Ho. destruct Ho as [->|[Ho _]]; [exact Hocont|].
+        apply (inv_I5c s HI); assumption.
+    Qed.
+  End Replace.
 End AddChildObject.
 
 Lemma add_object_child_inv : forall s ob q n pq s',
@@ -694,9 +840,35 @@ Proof.
       apply (fullpath_f_child_intro _ (store s1) ob q); [rewrite Hst; reflexivity | exact Hqf]. }
     rewrite Hobp in H. rewrite Ha1 in H.
     destruct (rget (pq ++ [n]) (allobj s)) as [first|] eqn:Ef.
-    + destruct (Hdup pq first Hpq Ef) as [Hfc ->].
-      assert (Hfne : first <> ob) by (intros E; apply Hun; apply Hreg; rewrite <- E; exists (pq ++ [n]); exact Ef).
-      rewrite (Hoth first Hfne), Hfc in H. rewrite Hcl in H. cbn in H. inversion H; subst s'. exact HI1.
+    + assert (Hfne : first <> ob) by (intros E; apply Hun; apply Hreg; rewrite <- E; exists (pq ++ [n]); exact Ef).
+      destruct (Hdup pq first Hpq Ef) as [[Hfc ->]|[Hmodf [Hcond [Hinu Hcov]]]].
+      { rewrite (Hoth first Hfne), Hfc in H. rewrite Hcl in H. cbn in H. inversion H; subst s'. exact HI1. }
+      rewrite (Hoth first Hfne), Hmodf in H. cbn [negb] in H. cbv iota in H.
+      assert (Hcond' : ocls_eqb (ocl (store s first)) CPackage && negb (ocls_eqb (ocl (store s1 ob)) CPackage) = false).
+      { rewrite Hcl. destruct pkg; cbn in *; [apply andb_false_r | exact Hcond]. }
+      rewrite Hcond' in H. unfold remove_tree in H.
+      destruct (subtree s1 first) as [T|] eqn:ET; [|discriminate].
+      destruct (del_walk s1 T (allobj s1)) as [m1|] eqn:Em1; [|discriminate].
+      destruct (negb (existsb (N.eqb first) (unproc s1))); [discriminate|].
+      match type of H with context [fullpath ?X ob] => assert (Hfp' : fullpath X ob = Some (pq ++ [n])) by exact Hobp end.
+      rewrite Hfp' in H. clear Hfp'.
+      destruct (rget (pq ++ [n]) m1) eqn:Efree; [discriminate|].
+      assert (Hcov1 : covered s1 first).
+      { apply (covered_frame s s1 first HI Ha1); [|exact Hcov].
+        intros o Ho. rewrite Hoth; [apply same_core_refl|]. intros E. apply Hun. apply Hreg. rewrite <- E. exact Ho. }
+      assert (Hq1 : reg s1 q) by (apply Hreg; exact Hq).
+      assert (Hop : oparent (store s1 ob) = Some q) by (rewrite Hst; reflexivity).
+      assert (Hon : oname (store s1 ob) = n) by (rewrite Hst; reflexivity).
+      unfold add_object in H. cbn [store set_unproc set_allobj] in H. rewrite Hop, Hon in H.
+      unfold fullpath in H. cbn [store depthb set_store set_unproc set_allobj] in H.
+      rewrite (st1_fullpath s1 ob q n) in H. unfold fullpath in Hobp. rewrite Hobp in H.
+      cbn [allobj set_store set_unproc set_allobj] in H. rewrite Efree in H. inversion H; subst s'. clear H.
+      rewrite <- Ha1 in Ef.
+      refine (add_replace_inv s1 ob q n pq HI1 Hlt _ Hop Hon Hq1 _ (Hfp q pq Hq Hpq) Hobp _ _ first T m1 _ Ef Hcov1 ET Em1).
+      * rewrite Hst. reflexivity.
+      * rewrite (Hoth q Hqne), Hqp. reflexivity.
+      * rewrite Hcl. destruct pkg; discriminate.
+      * intros _. rewrite (Hoth q Hqne). exact Hqp.
     + assert (HI1u : Inv (set_unproc s1 (unproc s1 ++ [ob])))
         by (apply (Inv_frame s1); cbn; auto; try lia; intros; apply same_core_refl).
       apply (add_object_child_inv (set_unproc s1 (unproc s1 ++ [ob])) ob q n pq s' HI1u Hlt Hun);
